@@ -18,7 +18,7 @@ import random
 
 import front
 
-LEAN_MODULE = "PydjinniModel.Props.C04"
+LEAN_MODULE = "PydjinniModel.Props.C05Program"
 THEOREMS = [
     "Pydjinni.Front.resolve_eq_lexical",
     "Pydjinni.Front.resolve_none_iff",
@@ -36,6 +36,7 @@ THEOREMS = [
     "Pydjinni.Front.file_registers_iff",
     "Pydjinni.Front.get_stable",
     "Pydjinni.Front.lexicalLookup_stable",
+    "Pydjinni.Front.front_bindings_lexical",
 ]
 LEVEL = "proof"
 
